@@ -28,8 +28,11 @@ from __future__ import annotations
 
 import collections
 import datetime as dt
+import os
 import random
 import re
+import shutil
+import tempfile
 import traceback
 
 from rcc import harness as h
@@ -325,6 +328,12 @@ def describe(o, depth=0):
             d['sec_cardinality'] = list(o._sec_cardinality)
         if o._prop_cardinality is not None:
             d['prop_cardinality'] = list(o._prop_cardinality)
+        if o._link is not None:
+            d['link'] = o._link
+        if o._include is not None:
+            d['include'] = o._include
+        if getattr(o, '_merged', None) is not None:
+            d['resolved'] = True
         d['props'] = [describe(p) for p in _props(o)]
         d['sections'] = [describe(s) for s in _secs(o)]
         return d
@@ -358,6 +367,75 @@ CRASH_KIND = {'property_dependency_check': 'property_dependency_check',
               'property_values_check': 'property_values_check',
               '_cardinality_validation': None, 'object_required_attributes': 'object_required_attributes',
               'object_name_readable': 'object_name_readable'}
+
+
+def link_observations(o):
+    """What the private link fields say about the Section that holds `o` (o itself when it is a Section)."""
+    holder = o if is_sec(o) else getattr(o, '_parent', None)
+    obs = []
+    if holder is not None and is_sec(holder):
+        if getattr(holder, '_merged', None) is not None:
+            obs.append('section-with-resolved-link-or-include')
+        elif holder._link is not None or holder._include is not None:
+            obs.append('section-with-unresolved-link-or-include')
+        anc, seen = holder._parent, set()
+        while anc is not None and id(anc) not in seen:
+            seen.add(id(anc))
+            if is_sec(anc) and getattr(anc, '_merged', None) is not None:
+                obs.append('below-section-with-resolved-link-or-include')
+                break
+            anc = getattr(anc, '_parent', None)
+    return obs
+
+
+def content(o):
+    """Content of an object without ids, identities and position (independent snapshot)."""
+    return h.snap(o, ids=False, parent=False)
+
+
+def lost_situation(ex, got, key):
+    """The issue `key` is prescribed and missing.  When validating the object itself reports it, return a stable
+    label of the situation the object is in (else None: the rule itself does not fire, reported per rule)."""
+    o, kind = ex.objs[key[0]], key[1]
+    alone = h.call(Validation, o)
+    if alone[0] == 'exc':
+        # (a crash of that run is reported by the case that validates the object itself)
+        return 'properties-directly-below-validated-section-not-examined' if key[0] in ex.root_props else None
+    if not any(e.obj is o and getattr(e.validation_id, 'name', None) == kind for e in alone[1].errors):
+        return None
+    if key[0] in ex.root_props:
+        return 'properties-directly-below-validated-section-not-examined'
+    obs = link_observations(o)
+    mine = None
+    for (oid, k), n in got.items():
+        t = ex.objs.get(oid)
+        if k != kind or not n or t is None or t is o or type(t) is not type(o):
+            continue
+        if mine is None:
+            mine = content(o)
+        if content(t) == mine:
+            obs.append('equal-content-object-elsewhere-got-the-issue')
+            break
+    return 'issue-reported-when-object-validated-alone-is-missing-in-run: ' + ('+'.join(obs) if obs else 'plain-object')
+
+
+def group_situation(ex, family, members, flagged, got_group):
+    """Suffix for the feature of an under-reported group of duplicates: what is special about where it lives."""
+    obs = []
+    if family != 'ids':
+        par = members[0]._parent
+        if par is not None and is_sec(par):
+            obs += ['parent-is-' + x for x in link_observations(par)[:1]]
+    mine = sorted(repr(content(m)) for m in members)
+    kinds = ID_KINDS if family == 'ids' else (family,)
+    reported = set(id(o) for k in kinds for o in got_group.get(k, []))
+    for fam2, mem2, _unfl, _lab in ex.groups:
+        if fam2 != family or mem2 is members or len(mem2) != len(members):
+            continue
+        if sum(1 for m in mem2 if id(m) in reported) >= len(mem2) - 1 and sorted(repr(content(m)) for m in mem2) == mine:
+            obs.append('equal-content-group-elsewhere-got-the-issue')
+            break
+    return ' [%s]' % '+'.join(obs) if obs else ''
 
 
 def check(col, root, how, case_label):
@@ -415,7 +493,7 @@ def check(col, root, how, case_label):
             ex.objs.setdefault(id(e.obj), e.obj)
 
     # -- fixed expectations ------------------------------------------------------------------
-    problems, omitted = [], []
+    problems, lost = [], collections.OrderedDict()
     for key in sorted(set(got) | set(ex.fixed), key=lambda k: (k[1], str(ex.labels.get(k)))):
         if key in ex.dontcare:
             continue
@@ -424,23 +502,23 @@ def check(col, root, how, case_label):
             g, x = min(g, 1), min(x, 1)
         if g == x:
             continue
-        if g == 0 and key[0] in ex.root_props:
-            # diagnosis: is the issue reported when the Property itself is validated? then the rule works and
-            # the Property was simply not examined while its Section was validated
-            alone = h.call(Validation, ex.objs[key[0]])
-            # (a crash of that run is reported by the case that validates the Property itself)
-            if alone[0] == 'exc' or any(e.obj is ex.objs[key[0]] and getattr(e.validation_id, 'name', None) == key[1]
-                                        for e in alone[1].errors):
-                omitted.append(key)
+        if g == 0 and key[0] in ex.objs and ex.objs[key[0]] is not root:
+            # diagnosis: is the issue reported when the object itself is validated? then the rule works and the
+            # issue was lost by the run (object not examined / issue not collected); classify by the situation
+            situation = lost_situation(ex, got, key)
+            if situation:
+                lost.setdefault(situation, []).append(key)
                 continue
         problems.append((key, g, x))
-    if omitted:
-        key = omitted[0]
+    for situation, keys in lost.items():
+        key = keys[0]
         col.fail(check=NAME + '/no-false-negative',
-                 cls={'clause': 'no-false-negative', 'feature': 'properties-directly-below-validated-section-not-examined'},
+                 cls={'clause': 'no-false-negative', 'feature': situation},
                  witness=dict(witness, at=obj_label(ex.objs[key[0]])),
-                 detail='%d issue(s) that Validation(property) reports are missing when the Section holding the Property is '
-                        'validated, e.g. %s (%s) on %s' % (len(omitted), key[1], ex.labels.get(key), obj_label(ex.objs[key[0]])))
+                 detail='%d issue(s) that Validation(object) reports for the object itself are missing when %s is validated, '
+                        'e.g. %s (%s) on %s; kinds: %s'
+                        % (len(keys), obj_label(root), key[1], ex.labels.get(key), obj_label(ex.objs[key[0]]),
+                           sorted(set(k[1] for k in keys))))
     for key, g, x in problems:
         o = ex.objs.get(key[0])
         if o is None or key not in ex.labels:
@@ -474,6 +552,8 @@ def check(col, root, how, case_label):
             bad = ('no-false-negative', '%d of %d members flagged, %d expected' % (len(flagged), len(members), len(members) - 1))
         elif len(flagged) > len(members) - 1:
             bad = ('no-false-positive', 'all %d members flagged, %d expected' % (len(flagged), len(members) - 1))
+        if bad and bad[0] == 'no-false-negative':
+            label += group_situation(ex, family, members, flagged, got_group)
         if bad:
             col.fail(check=NAME + '/' + bad[0], cls={'clause': bad[0], 'feature': '%s: %s' % (family, label)},
                      witness=dict(witness, at=[obj_label(m) for m in members]),
@@ -733,8 +813,7 @@ def all_cards(limit):
     return out
 
 
-def gen_cardinality(tier):
-    limit = 5
+def gen_cardinality(tier, limit=5):
     k = 0
     for kind in ('sections', 'properties', 'values'):
         for card in all_cards(limit):
@@ -921,6 +1000,629 @@ def gen_mixed(tier, seed):
         yield (labels,), doc
 
 
+# -- one table of rule violations, applicable to any Section / Property of any document ---------------
+
+def _other_id(o):
+    """The id of some other object of the graph `o` lives in (None when there is none)."""
+    root = h.roots_of([o])[0]
+    secs, props = h.walk(root)
+    for x in ([root] if is_sec(root) else []) + secs + props:
+        if x is not o and x._id != o._id:
+            return x._id
+    return root._id if root is not o and is_doc(root) else None
+
+
+def _v_sec_card(attr, children, low):
+    def apply(s):
+        n = len(children(s))
+        if not low and n < 2:
+            return False
+        setattr_q(s, attr, (n + 1, None) if low else (None, n - 1))
+        return True
+    return apply
+
+
+def _v_same_child_names(children, with_type):
+    def apply(s):
+        kids = children(s)
+        if len(kids) < 2:
+            return False
+        kids[-1]._name = kids[0]._name                  # the API refuses to create the clash
+        if with_type:
+            setattr_q(kids[-1], 'type', kids[0].type)
+        return True
+    return apply
+
+
+def _v_new_id(o):
+    oid = _other_id(o)
+    if oid is None:
+        return False
+    return h.call(o.new_id, oid)[0] == 'ret' and o._id == oid
+
+
+def _v_name_is_id(o):
+    r = h.call(setattr, o, 'name', None)                # documented: an empty name falls back to the id
+    return r[0] == 'ret' and o._name == o._id
+
+
+def _v_set(**attrs):
+    def apply(o):
+        for k, v in attrs.items():
+            if k.startswith('_'):
+                setattr(o, k, v)
+            else:
+                setattr_q(o, k, v)
+        return True
+    return apply
+
+
+def _v_dep_value_absent(p):
+    par = p._parent
+    if par is None or not is_sec(par):
+        return False
+    for sib in _props(par):
+        if sib is not p and isinstance(sib._name, str) and sib._name and sib._name != p._name:
+            setattr_q(p, 'dependency', sib._name)
+            setattr_q(p, 'dependency_value', 'zz-absent')
+            return True
+    return False
+
+
+def _v_val_card(low):
+    def apply(p):
+        if not low and len(p._values) < 2:
+            p._dtype, p._values = 'int', [1, 2, 3]
+        n = len(p._values)
+        setattr_q(p, 'val_cardinality', (n + 1, None) if low else (None, n - 1))
+        return True
+    return apply
+
+
+SEC_VIOLATIONS = collections.OrderedDict([
+    ('type-missing', _v_set(type=None)),
+    ('type-unspecified', _v_set(type='n.s.')),
+    ('name-is-id', _v_name_is_id),
+    ('properties-below-min', _v_sec_card('prop_cardinality', _props, True)),
+    ('properties-above-max', _v_sec_card('prop_cardinality', _props, False)),
+    ('sections-below-min', _v_sec_card('sec_cardinality', _secs, True)),
+    ('sections-above-max', _v_sec_card('sec_cardinality', _secs, False)),
+    ('child-sections-same-name-type', _v_same_child_names(_secs, True)),
+    ('child-properties-same-name', _v_same_child_names(_props, False)),
+    ('id-of-other-object', _v_new_id),
+])
+PROP_VIOLATIONS = collections.OrderedDict([
+    ('name-missing', _v_set(_name='')),
+    ('name-is-id', _v_name_is_id),
+    ('dependency-on-missing', _v_set(dependency='nowhere-to-be-found', dependency_value='x')),
+    ('dependency-value-absent', _v_dep_value_absent),
+    ('values-inconsistent', _v_set(_dtype='int', _values=[1, 'abc'])),
+    ('values-below-min', _v_val_card(True)),
+    ('values-above-max', _v_val_card(False)),
+    ('id-of-other-object', _v_new_id),
+])
+
+
+def violations_for(o):
+    return PROP_VIOLATIONS if is_prop(o) else SEC_VIOLATIONS
+
+
+def at(root, path):
+    """Object at 'sec/sec:prop' below root (first match by private name), or None."""
+    secpath, _, pname = path.partition(':')
+    node = root
+    for name in [x for x in secpath.split('/') if x]:
+        node = next((s for s in _secs(node) if s._name == name), None)
+        if node is None:
+            return None
+    if pname:
+        return next((p for p in _props(node) if p._name == pname), None) if is_sec(node) else None
+    return node
+
+
+def focus_targets(doc, obj):
+    """The root, every Section above `obj`, and `obj` itself."""
+    chain, seen = [], set()
+    o = obj
+    while o is not None and id(o) not in seen:
+        seen.add(id(o))
+        chain.append(o)
+        o = getattr(o, '_parent', None)
+    out = []
+    for o in reversed(chain):
+        out.append((o, 'Document.validate' if is_doc(o) else 'Validation'))
+    if not any(o is doc for o, _ in out):
+        out.insert(0, (doc, 'Document.validate'))
+    return out
+
+
+# -- links and includes ----------------------------------------------------------------------------
+
+WORK = '%s/c08-%d' % (h.WORK, os.getpid())
+
+
+class IncludeEnv(object):
+    """Publishes documents as files below WORK (file: URLs) and loads them through the library's own
+    terminology loader *now*, so that no deferred loading thread is ever started for these URLs."""
+
+    def __enter__(self):
+        import odml.terminology as terminology
+        self.terminology = terminology
+        shutil.rmtree(WORK, ignore_errors=True)
+        os.makedirs(os.path.join(WORK, 'tmp'))
+        self.old_tmp = tempfile.tempdir
+        tempfile.tempdir = os.path.join(WORK, 'tmp')
+        self.urls = []
+        return self
+
+    def __exit__(self, *exc):
+        for url in self.urls:
+            self.terminology.terminologies.pop(url, None)
+        tempfile.tempdir = self.old_tmp
+        shutil.rmtree(WORK, ignore_errors=True)
+        return False
+
+    def publish(self, doc, fname):
+        path = os.path.join(WORK, fname)
+        with h.quiet():
+            odml.save(doc, path, 'XML')
+        url = 'file://' + path
+        kind, term = h.call(self.terminology.load, url)
+        if kind == 'exc' or term is None:
+            raise RuntimeError('cannot publish %s: %r' % (url, term))
+        self.urls.append(url)
+        return url
+
+
+def _template(parent, name='tmpl'):
+    tmpl = S(name, 'setup', parent=parent)
+    P('rate', values=[30000], parent=tmpl)
+    P('shared', values=['a'], parent=tmpl)
+    tsub = S('tsub', parent=tmpl)
+    P('tp', values=[1, 2], parent=tsub)
+    P('tq', values=['v'], parent=tsub)
+    S('tleaf', parent=tsub)
+    S('tleaf2', 'u', parent=tsub)
+    both = S('both', parent=tmpl)
+    P('bp', values=['x'], parent=both)
+    return tmpl
+
+
+def _linker(parent, name='rec', **kw):
+    rec = S(name, 'recording', parent=parent, **kw)
+    P('gain', values=[2, 3], parent=rec)
+    P('shared', values=['a'], parent=rec)
+    own = S('own', parent=rec)
+    P('op', values=[1, 2], parent=own)
+    P('oq', values=['w'], parent=own)
+    S('oleaf', parent=own)
+    S('oleaf2', 'u', parent=own)
+    both = S('both', parent=rec)
+    P('mine', values=['y', 'z'], parent=both)
+    return rec
+
+
+# role of the violating object -> path below the Section that holds template and linker
+LINK_ROLES = collections.OrderedDict([
+    ('linking-section', 'rec'),
+    ('own-property-of-linking-section', 'rec:gain'),
+    ('own-subsection-of-linking-section', 'rec/own'),
+    ('property-of-own-subsection', 'rec/own:op'),
+    ('own-property-matching-target-property', 'rec:shared'),
+    ('own-subsection-matching-target-subsection', 'rec/both'),
+    ('own-property-of-matching-subsection', 'rec/both:mine'),
+    ('copied-property-of-matching-subsection', 'rec/both:bp'),
+    ('copied-property', 'rec:rate'),
+    ('copied-subsection', 'rec/tsub'),
+    ('property-of-copied-subsection', 'rec/tsub:tp'),
+    ('link-target', 'tmpl'),
+    ('property-of-link-target', 'tmpl:rate'),
+    ('subsection-of-link-target', 'tmpl/tsub'),
+    ('property-of-subsection-of-link-target', 'tmpl/tsub:tp'),
+    ('unrelated-section', 'plain'),
+    ('property-of-unrelated-section', 'plain:pp'),
+    ('parent-of-linking-section', ''),
+])
+CHAIN_ROLES = collections.OrderedDict([
+    ('second-linking-section', 'rec2'),
+    ('own-property-of-second-linking-section', 'rec2:g2'),
+    ('copied-copied-property', 'rec2:rate'),
+    ('copied-copied-subsection', 'rec2/tsub'),
+    ('property-of-copied-copied-subsection', 'rec2/tsub:tp'),
+    ('copied-own-subsection', 'rec2/own'),
+])
+
+# name -> (nested?, kind, text given to the constructor, text given to the setter, extra)
+LINK_MODES = collections.OrderedDict([
+    ('link-setter-absolute', (False, 'link', None, '/tmpl', None)),
+    ('link-setter-relative', (False, 'link', None, '../tmpl', None)),
+    ('link-constructor-finalize', (False, 'link', '/tmpl', None, None)),
+    ('link-setter-below-section', (True, 'link', None, '/outer/tmpl', None)),
+    ('link-constructor-relative-finalize-below-section', (True, 'link', '../tmpl', None, None)),
+    ('include-setter-path', (False, 'include', None, '#/tmpl', None)),
+    ('include-constructor-finalize-first-section', (True, 'include', '', None, None)),
+    ('link-to-linking-section', (False, 'link', None, '/tmpl', 'chain')),
+    ('link-target-contains-linking-section', (True, 'link', None, '/outer/tmpl', 'link-in-target')),
+])
+
+
+class LinkScenario(object):
+    """template + linking Section (+ unrelated Section), all below `holder` (the Document or a Section 'outer')."""
+
+    def __init__(self, mode, url):
+        nested, kind, ctor, setter, extra = LINK_MODES[mode]
+        self.mode, self.kind, self.extra = mode, kind, extra
+        self.doc = D()
+        self.holder = S('outer', 'o', parent=self.doc) if nested else self.doc
+        if kind == 'include':
+            ctor = None if ctor is None else url + ctor
+            setter = None if setter is None else url + setter
+            S('tmpl', 'other', parent=self.holder)          # a local Section of that name is not the target
+        else:
+            _template(self.holder)
+        self.setter = setter
+        self.rec = _linker(self.holder, **({kind: ctor} if ctor is not None else {}))
+        plain = S('plain', 'p', parent=self.holder)
+        P('pp', values=[1, 2], parent=plain)
+        P('pq', values=['u'], parent=plain)
+        S('psub', parent=plain)
+        S('psub2', 'u', parent=plain)
+        self.rec2 = None
+        self.problems = []
+
+    def obj(self, path):
+        return self.holder if path == '' and is_sec(self.holder) else (at(self.holder, path) if path else None)
+
+    def resolve(self):
+        if self.extra == 'link-in-target':
+            tsub = at(self.holder, 'tmpl/tsub')
+            self._do(setattr, tsub, 'link', '/outer/plain')
+        if self.setter is not None:
+            self._do(setattr, self.rec, self.kind, self.setter)
+        else:
+            self._do(self.doc.finalize)
+        if self.extra == 'chain':
+            if self.rec2 is None:
+                self.rec2 = S('rec2', 'recording2', parent=self.holder)
+                P('g2', values=[5, 6], parent=self.rec2)
+                P('gain', values=[2], parent=self.rec2)
+            self._do(setattr, self.rec2, 'link', '/rec')
+
+    def clean(self):
+        self._do(self.doc.clean)
+
+    def re_resolve(self):
+        self._do(self.doc.finalize)
+
+    def _do(self, fn, *a):
+        r = h.call(fn, *a)
+        if r[0] == 'exc':
+            self.problems.append('%s: %s' % (type(r[1]).__name__, r[1]))
+
+
+def gen_link_scenarios(tier, url):
+    """(params, scenario, role path, violation name, timing)"""
+    rich_modes = ('link-setter-absolute', 'link-constructor-finalize', 'include-setter-path')
+    for mode in LINK_MODES:
+        roles = collections.OrderedDict(LINK_ROLES)
+        if LINK_MODES[mode][4] == 'chain':
+            roles.update(CHAIN_ROLES)
+        timings = ('after-resolving', 'before-resolving', 'after-cleaning')
+        if tier == 'quick' and mode not in rich_modes:
+            timings = ('after-resolving',)
+        elif tier == 'quick':
+            timings = ('after-resolving', 'before-resolving')
+        for role, path in roles.items():
+            is_p = ':' in path
+            for vname in (PROP_VIOLATIONS if is_p else SEC_VIOLATIONS):
+                for timing in timings:
+                    yield (mode, role, vname, timing), LinkScenario(mode, url), path, vname, timing
+        # control: no violation at all
+        yield (mode, 'none', 'none', 'never'), LinkScenario(mode, url), None, None, 'never'
+
+
+def run_links(col, tier, seed):
+    with IncludeEnv() as env:
+        lib = D()
+        _template(lib)
+        other = S('second', 'n.s.', parent=lib)               # warnings do not keep a document from being saved
+        P('sp', values=[1], parent=other)
+        url = env.publish(lib, 'lib.xml')
+        full_modes = ('link-setter-absolute', 'link-setter-below-section', 'include-setter-path',
+                      'link-to-linking-section')
+        for params, sc, path, vname, timing in gen_link_scenarios(tier, url):
+            mode = params[0]
+            focus = [None]
+
+            def violate(when):
+                if timing != when or path is None:
+                    return True
+                o = sc.obj(path)
+                if o is None:
+                    return False
+                focus[0] = o
+                return bool(violations_for(o)[vname](o))
+
+            def validate(state):
+                full = tier != 'quick' or (state == 'resolved' and timing != 'before-resolving' and mode in full_modes)
+                if full or focus[0] is None:
+                    targets = targets_of(sc.doc, standalone=(state == 'resolved'))
+                else:
+                    targets = focus_targets(sc.doc, focus[0])
+                run_targets(col, targets, 'links', params + (state,))
+
+            if not violate('before-resolving'):
+                continue
+            if timing == 'before-resolving' or (path is None and LINK_MODES[mode][2] is not None) or tier != 'quick':
+                validate('before-resolving')
+            sc.resolve()
+            if not violate('after-resolving'):
+                continue
+            validate('resolved')
+            sc.clean()
+            if not violate('after-cleaning'):
+                continue
+            validate('cleaned')
+            sc.re_resolve()
+            validate('resolved-again')
+
+
+# -- the same content at several places ------------------------------------------------------------------
+
+def _attach(parent, obj, name=None):
+    """Attach through the API; where the API refuses a name that is already there, use a free name and
+    force the wanted one into the private field afterwards (validation has to cope with every document)."""
+    r = h.call(parent.append, obj)
+    if r[0] == 'ret':
+        return True
+    keep = obj._name
+    obj._name = 'tmp-%d' % len(_secs(parent) if is_sec(obj) else _props(parent))
+    r = h.call(parent.append, obj)
+    obj._name = keep
+    return r[0] == 'ret' and obj._parent is parent
+
+
+def _holder(parent, base, type_='h'):
+    """A new, empty Section below parent under a name nobody there uses yet."""
+    used = set(x._name for x in _secs(parent))
+    name, k = base, 0
+    while name in used:
+        k += 1
+        name = '%s%d' % (base, k)
+    return S(name, type_, parent=parent)
+
+
+def _clone(o, keep_id=False):
+    r = h.call(o.clone, keep_id=keep_id)
+    return r[1] if r[0] == 'ret' else None
+
+
+def rep_clone_under_new_parent(doc, keep_id=False, depth=1):
+    tops = _secs(doc)
+    holder = _holder(doc, 'elsewhere')
+    for _ in range(depth - 1):
+        holder = _holder(holder, 'deeper')
+    n = 0
+    for t in tops:
+        c = _clone(t, keep_id)
+        n += bool(c is not None and _attach(holder, c))
+    return n > 0
+
+
+def rep_two_clones_in_one_section(doc):
+    tops = _secs(doc)
+    wrap = _holder(doc, 'wrap')
+    n = 0
+    for name in ('a', 'b'):
+        sub = S(name, 'h', parent=wrap)
+        for t in tops:
+            c = _clone(t)
+            n += bool(c is not None and _attach(sub, c))
+    return n > 0
+
+
+def rep_clone_altered(doc):
+    """Same names and places as an exact copy would have, but every copied object differs in content."""
+    tops = _secs(doc)
+    holder = _holder(doc, 'elsewhere')
+    n = 0
+    for t in tops:
+        c = _clone(t)
+        if c is None:
+            continue
+        secs, props = h.walk(c)
+        for o in [c] + secs + props:
+            setattr_q(o, 'definition', 'changed')
+        n += bool(_attach(holder, c))
+    return n > 0
+
+
+def rep_sibling_same_name_other_type(doc):
+    """A copy with another type next to the original: same name, same path, not a name/type clash."""
+    n = 0
+    for t in _secs(doc):
+        c = _clone(t)
+        if c is None:
+            continue
+        setattr_q(c, 'type', 'other-type')
+        n += bool(_attach(doc, c))
+    return n > 0
+
+
+def rep_properties_into_new_section(doc):
+    """Equal Properties in different Sections (their siblings differ)."""
+    secs, props = h.walk(doc)
+    holder = _holder(doc, 'collected')
+    n = 0
+    for p in props:
+        c = _clone(p)
+        if c is not None and not any(x._name == c._name for x in _props(holder)):
+            n += bool(_attach(holder, c))
+    return n > 0
+
+
+def rep_equal_sibling_properties(doc):
+    """Equal Properties next to each other (the name clash is one more prescribed issue)."""
+    secs, props = h.walk(doc)
+    n = 0
+    for p in props:
+        c = _clone(p)
+        n += bool(c is not None and _attach(p._parent, c))
+    return n > 0
+
+
+def rep_linked_from_new_section(doc):
+    """A new Section linking to each top-level Section: the copies come from the library itself."""
+    n = 0
+    for k, t in enumerate(_secs(doc)):
+        if not isinstance(t._name, str) or not t._name or '/' in t._name:
+            continue
+        lk = _holder(doc, 'linker%d' % k, t.type if isinstance(t.type, str) and t.type else 'h')
+        r = h.call(setattr, lk, 'link', '/' + t._name)
+        n += bool(r[0] == 'ret' and lk._merged is not None)
+    return n > 0
+
+
+REPLICATIONS = collections.OrderedDict([
+    ('clone-under-new-parent', rep_clone_under_new_parent),
+    ('clone-keep_id-under-new-parent', lambda doc: rep_clone_under_new_parent(doc, keep_id=True)),
+    ('clone-three-levels-down', lambda doc: rep_clone_under_new_parent(doc, depth=3)),
+    ('two-clones-in-one-section', rep_two_clones_in_one_section),
+    ('clone-with-changed-definitions', rep_clone_altered),
+    ('sibling-with-same-name-other-type', rep_sibling_same_name_other_type),
+    ('properties-cloned-into-new-section', rep_properties_into_new_section),
+    ('equal-sibling-properties', rep_equal_sibling_properties),
+    ('linked-from-new-section', rep_linked_from_new_section),
+])
+
+
+def gen_violation_matrix(tier):
+    """Every violation of the table at every object of one small document (each kind of object at two depths)."""
+    def base():
+        doc = D()
+        for name in ('one', 'two'):
+            top = S(name, 'top-' + name, parent=doc)
+            P('a', values=[1, 2], parent=top)
+            P('b', values=['s'], parent=top)
+            for sub in ('x', 'y'):
+                s = S(sub, 'sub-' + sub, parent=top)
+                P('c', values=[1.5, 2.5], parent=s)
+                P('d', values=['t'], parent=s)
+        return doc
+    paths = ['one', 'one:a', 'one/x', 'one/x:c', 'two/y', 'two/y:d']
+    for path in paths:
+        for vname in (PROP_VIOLATIONS if ':' in path else SEC_VIOLATIONS):
+            doc = base()
+            o = at(doc, path)
+            if violations_for(o)[vname](o):
+                yield (path, vname), doc
+
+
+def gen_sources(tier):
+    """(category, generator function of fresh invalid-on-purpose documents) to be replicated."""
+    yield 'matrix', lambda: gen_violation_matrix(tier)
+    yield 'dependency', lambda: (x for k, x in enumerate(gen_dependency('quick')) if tier != 'quick' or k % 4 == 0)
+    yield 'ids', lambda: (x for x in gen_ids('quick'))
+    yield 'required', lambda: (x for k, x in enumerate(gen_required(tier)) if tier != 'quick' or k % 2 == 0)
+    yield 'cardinality', lambda: gen_cardinality(tier, limit=2 if tier == 'quick' else 3)
+    yield 'duplicate-names', lambda: gen_dup_names(tier)
+    yield 'values', lambda: (x for x in gen_values(tier) if x[0] != ('api-pool',))
+
+
+def gen_replicated(tier):
+    for category, source in gen_sources(tier):
+        for rname, rep in REPLICATIONS.items():
+            for params, doc in source():
+                if rep(doc):
+                    yield (category, rname) + tuple(params), doc
+
+
+# -- deep and wide documents -----------------------------------------------------------------------------
+
+def gen_deep_wide(tier):
+    depth, width = 9, 12
+
+    def chain():
+        doc = D()
+        par, levels = doc, []
+        for d in range(depth):
+            s = S('level%d' % d, 'l%d' % d, parent=par)
+            P('p', values=[d, d + 1], parent=s)
+            P('r', values=['v%d' % d], parent=s)
+            S('side', 'leaf', parent=s)
+            S('side2', 'leaf2', parent=s)
+            levels.append(s)
+            par = s
+        return doc, levels
+
+    def row():
+        doc = D()
+        out = []
+        for k in range(width):
+            s = S('n%d' % k, 't%d' % k, parent=doc)
+            P('p', values=[k, k + 1], parent=s)
+            P('r', values=['v'], parent=s)
+            S('c1', parent=s)
+            S('c2', 'u', parent=s)
+            out.append(s)
+        return doc, out
+
+    for shape, build, places in (('deep', chain, (0, 4, depth - 1) if tier == 'quick' else tuple(range(depth))),
+                                 ('wide', row, (0, width - 1) if tier == 'quick' else (0, 5, width - 1))):
+        for k in places:
+            for kind, table in (('sec', SEC_VIOLATIONS), ('prop', PROP_VIOLATIONS)):
+                for vname in table:
+                    doc, nodes = build()
+                    o = nodes[k] if kind == 'sec' else _props(nodes[k])[0]
+                    if table[vname](o):
+                        yield (shape, k, kind, vname), doc, o
+        # the same violation everywhere at once
+        for kind, table in (('sec', SEC_VIOLATIONS), ('prop', PROP_VIOLATIONS)):
+            for vname in table:
+                if vname == 'id-of-other-object':
+                    continue
+                doc, nodes = build()
+                for s in nodes:
+                    table[vname](s if kind == 'sec' else _props(s)[0])
+                yield (shape, 'all', kind, vname), doc, None
+
+
+# -- random structural extension: mixtures, replicated and linked -------------------------------------------
+
+def gen_mixed_structural(tier, seed):
+    rnd = random.Random(seed * 104729 + 71)
+    reps = list(REPLICATIONS.items())
+    for doc in h.gen_docs(tier, seed + 2, max_secs=4, per_shape=6 if tier == 'quick' else 30):
+        labels = mutate(doc, rnd)
+        done = []
+        for _ in range(rnd.choice((1, 1, 2))):
+            secs, props = h.walk(doc)
+            if rnd.random() < 0.5 or len(secs) < 2:
+                rname, rep = rnd.choice(reps)
+                if rep(doc):
+                    done.append(rname)
+            else:
+                a, b = rnd.sample(secs, 2)
+                path = []
+                o = b
+                while o is not None and is_sec(o):
+                    path.append(o._name)
+                    o = o._parent
+                if all(isinstance(x, str) and x and '/' not in x for x in path):
+                    r = h.call(setattr, a, 'link', '/' + '/'.join(reversed(path)))
+                    if r[0] == 'ret' and a._merged is not None:
+                        done.append('link')
+                        for o in rnd.sample([a] + _secs(a) + _props(a), min(2, 1 + len(_secs(a)) + len(_props(a)))):
+                            vname = rnd.choice(list(violations_for(o)))
+                            if violations_for(o)[vname](o):
+                                done.append(vname)
+                        if rnd.random() < 0.3:
+                            h.call(doc.clean)
+                            done.append('clean')
+        if done:
+            yield (labels, tuple(done)), doc
+
+
 # ---------------------------------------------------------------------------------------------
 
 class ClassCapped(h.Collector):
@@ -977,4 +1679,11 @@ def run_rules(tier, seed):
         run_targets(col, targets_of(doc), 'values', params)
     for params, doc in gen_mixed(tier, seed):
         run_targets(col, targets_of(doc), 'mixed', params)
+    run_links(col, tier, seed)
+    for params, doc in gen_replicated(tier):
+        run_targets(col, targets_of(doc, standalone=False), 'replicated', params)
+    for params, doc, obj in gen_deep_wide(tier):
+        run_targets(col, targets_of(doc, standalone=False), 'deep-wide', params)
+    for params, doc in gen_mixed_structural(tier, seed):
+        run_targets(col, targets_of(doc), 'mixed-structural', params)
     return col.result()
